@@ -59,8 +59,9 @@ def set_world_states(m, d, states):
     if arr.size == 0:
       continue
     wp.copy(dst, wp.array(arr, dtype=dst.dtype))
-  if "qacc_warmstart" in states[0]:
-    arr = np.stack([np.asarray(s["qacc_warmstart"], dtype=np.float32) for s in states])
+  if any("qacc_warmstart" in s for s in states):
+    nv = d.qacc_warmstart.shape[1]
+    arr = np.stack([np.asarray(s.get("qacc_warmstart", np.zeros(nv)), dtype=np.float32) for s in states])
     wp.copy(d.qacc_warmstart, wp.array(arr, dtype=float))
 
 
